@@ -4,6 +4,8 @@ import Lemmas.U128Knuth
 import Lemmas.I128Basic
 import Lemmas.I128Div
 import Lemmas.I128DivW
+import Lemmas.U128Hw
+import Lemmas.U128Contrast
 /-! # C01 — 128-bit integer arithmetic, ordering and bit operations are ℤ mod 2^128
 
 Property theorems only.  The executable models are `Model/U128.lean` (`num.Uint128`) and `Model/I128.lean` (`num.Int128`),
@@ -17,7 +19,8 @@ correction loops — (`divmod128by64_spec`) and the estimate-and-correct branch 
 (`divmod128by128_spec`).  Hence `divMod_spec`, `div_mul_add_mod`, `idivMod_spec`, `idiv_mul_add_mod` hold for every
 operand pair with no hypothesis other than a non-zero divisor. -/
 namespace C01
-open U128 (W Res ofW)
+open U128 (W Res ofW Out)
+open U128.Contrast I128.Contrast
 
 /-! ## unsigned: add, subtract, multiply -/
 
@@ -152,8 +155,10 @@ theorem div_zero_panics (a n : U128) (h : n.toNat = 0) :
   · simp [U128.modW]
   · simp [U128.divModW]
 
-/-- … and nothing else does: `DivMod` panics only for a zero divisor.  (Every other model function is total and has
-    no `panic` in its result type, so "no other operation ever panics" holds of the model by construction.) -/
+/-- … and nothing else does: `DivMod` panics only for a zero divisor.  (In this total model a machine division by zero is
+    invisible; the partial-division model below — `hw_never_runtime_panic`, `hw_divzero_iff` — is where that part of the
+    clause can fail.  Every non-division model function is total and has no `panic` in its result type: for those,
+    "never panics" holds of the model by construction and is carried by the correspondence run.) -/
 theorem no_other_panic (a n : U128) (h : n.toNat ≠ 0) :
     a.divMod n ≠ .panic ∧ a.div n ≠ .panic ∧ a.mod n ≠ .panic := by
   have h3 : a.divMod n ≠ .panic := fun e => h ((U128.divMod_panic_iff a n).mp e)
@@ -467,5 +472,266 @@ example : (U128.mk 0#64 7#64).divMod (U128.mk 0#64 2#64) = .ok (⟨0#64, 3#64⟩
   simp [U128.divMod]
 example : (3#64 : W) ≠ 0#64 ∧ (U128.mk 1#64 0#64).hi.toNat < (3#64 : W).toNat := by decide
 example : (U128.mk 1#64 1#64).hi ≠ 0#64 := by decide
+
+/-! ## the panic clause made falsifiable: the partial-division model `Model/U128Hw.lean` (what the driver runs for the
+    twelve division entry points; outcome `ok` / `divzero` = explicit panic / `hwdiv` = the runtime's divide panic) -/
+
+/-- panic clause, unsigned: the six `Uint128` division entry points with every machine division partial (the functions
+    the driver runs) are the total model the spec theorems above speak about, `Res.panic` read as the explicit panic -/
+theorem hw_unsigned_eq (a n : U128) (w : W) :
+    a.divModC n = Out.ofRes (a.divMod n) ∧ a.divC n = Out.ofRes (a.div n) ∧ a.modC n = Out.ofRes (a.mod n) ∧
+    a.divModWC w = Out.ofRes (a.divModW w) ∧ a.divWC w = Out.ofRes (a.divW w) ∧ a.modWC w = Out.ofRes (a.modW w) :=
+  ⟨U128.divModC_eq a n, U128.divC_eq a n, U128.modC_eq a n, U128.divModWC_eq a w, U128.divWC_eq a w, U128.modWC_eq a w⟩
+
+/-- panic clause, signed: the same for the six `Int128` entry points (they have no machine division of their own) -/
+theorem hw_signed_eq (a n : I128) (w : W) :
+    a.divModC n = Out.ofRes (a.divMod n) ∧ a.divC n = Out.ofRes (a.div n) ∧ a.modC n = Out.ofRes (a.mod n) ∧
+    a.divModWC w = Out.ofRes (a.divModW w) ∧ a.divWC w = Out.ofRes (a.divW w) ∧ a.modWC w = Out.ofRes (a.modW w) :=
+  ⟨I128.divModC_eq a n, I128.divC_eq a n, I128.modC_eq a n, I128.divModWC_eq a w, I128.divWC_eq a w, I128.modWC_eq a w⟩
+
+/-- **no operation lets the runtime's integer-divide panic through**: none of the twelve division entry points ever
+    divides a machine word by zero, for any operands (zero divisors included — those raise the explicit panic) -/
+theorem hw_never_runtime_panic (a n : U128) (i m : I128) (w : W) :
+    a.divModC n ≠ .hwdiv ∧ a.divC n ≠ .hwdiv ∧ a.modC n ≠ .hwdiv ∧
+    a.divModWC w ≠ .hwdiv ∧ a.divWC w ≠ .hwdiv ∧ a.modWC w ≠ .hwdiv ∧
+    i.divModC m ≠ .hwdiv ∧ i.divC m ≠ .hwdiv ∧ i.modC m ≠ .hwdiv ∧
+    i.divModWC w ≠ .hwdiv ∧ i.divWC w ≠ .hwdiv ∧ i.modWC w ≠ .hwdiv := by
+  have k : ∀ {α : Type} (r : Res α), Out.ofRes r ≠ Out.hwdiv := fun r => by cases r <;> intro h <;> cases h
+  rw [U128.divModC_eq, U128.divC_eq, U128.modC_eq, U128.divModWC_eq, U128.divWC_eq, U128.modWC_eq,
+    I128.divModC_eq, I128.divC_eq, I128.modC_eq, I128.divModWC_eq, I128.divWC_eq, I128.modWC_eq]
+  exact ⟨k _, k _, k _, k _, k _, k _, k _, k _, k _, k _, k _, k _⟩
+
+/-- **division or remainder by zero panics (explicit `panic(divByZero)`) and nothing else does**, unsigned, on the
+    partial-division model: the outcome is `divzero` exactly for a zero divisor -/
+theorem hw_divzero_iff (a n : U128) (w : W) :
+    (a.divModC n = .divzero ↔ n.toNat = 0) ∧ (a.divC n = .divzero ↔ n.toNat = 0) ∧
+    (a.modC n = .divzero ↔ n.toNat = 0) ∧ (a.divModWC w = .divzero ↔ w = 0#64) ∧
+    (a.divWC w = .divzero ↔ w = 0#64) ∧ (a.modWC w = .divzero ↔ w = 0#64) := by
+  have k : ∀ {α : Type} (r : Res α), Out.ofRes r = Out.divzero ↔ r = .panic := fun r => by
+    cases r <;> constructor <;> intro h <;> first | rfl | cases h
+  have km : ∀ {α β : Type} (r : Res α) (f : α → β), r.map f = .panic ↔ r = .panic := fun r f => by
+    cases r <;> constructor <;> intro h <;> first | rfl | cases h
+  have hw : (ofW w).toNat = 0 ↔ w = 0#64 := by rw [U128.ofW_toNat, U128.w_eq_iff]; rfl
+  rw [U128.divModC_eq, U128.divC_eq, U128.modC_eq, U128.divModWC_eq, U128.divWC_eq, U128.modWC_eq,
+    k, k, k, k, k, k, U128.div_eq_divMod, U128.mod_eq_divMod, U128.divModW_eq, U128.divW_eq, U128.modW_eq,
+    U128.div_eq_divMod, U128.mod_eq_divMod, km, km, km, km, U128.divMod_panic_iff, U128.divMod_panic_iff, hw]
+  exact ⟨Iff.rfl, Iff.rfl, Iff.rfl, Iff.rfl, Iff.rfl, Iff.rfl⟩
+
+/-- the same for the six signed entry points, over the value of the divisor -/
+theorem hw_idivzero_iff (a n : I128) (w : W) :
+    (a.divModC n = .divzero ↔ n.toInt = 0) ∧ (a.divC n = .divzero ↔ n.toInt = 0) ∧
+    (a.modC n = .divzero ↔ n.toInt = 0) ∧ (a.divModWC w = .divzero ↔ w = 0#64) ∧
+    (a.divWC w = .divzero ↔ w = 0#64) ∧ (a.modWC w = .divzero ↔ w = 0#64) := by
+  have k : ∀ {α : Type} (r : Res α), Out.ofRes r = Out.divzero ↔ r = .panic := fun r => by
+    cases r <;> constructor <;> intro h <;> first | rfl | cases h
+  have hz : ∀ m : I128, m.toInt = 0 → m = I128.zero := fun m h => I128.toInt_inj (by rw [h]; decide)
+  have hw : ∀ v : W, I128.int64Val v = 0 ↔ v = 0#64 := fun v => by
+    have := v.isLt
+    rw [U128.w_eq_iff]; unfold I128.int64Val; simp only [BitVec.toNat_ofNat]; split <;> omega
+  have z := idiv_zero_panics a
+  rw [I128.divModC_eq, I128.divC_eq, I128.modC_eq, I128.divModWC_eq, I128.divWC_eq, I128.modWC_eq, k, k, k, k, k, k]
+  refine ⟨⟨?_, ?_⟩, ⟨?_, ?_⟩, ⟨?_, ?_⟩, ⟨?_, ?_⟩, ⟨?_, ?_⟩, ⟨?_, ?_⟩⟩
+  · intro e; apply Classical.byContradiction; intro h
+    obtain ⟨q, r, e', _⟩ := idivMod_spec a n h; rw [e'] at e; cases e
+  · intro h; rw [hz n h]; exact z.2.1
+  · intro e; apply Classical.byContradiction; intro h
+    obtain ⟨⟨q, e', _⟩, _⟩ := idiv_imod_spec a n h; rw [e'] at e; cases e
+  · intro h; rw [hz n h]; exact z.1
+  · intro e; apply Classical.byContradiction; intro h
+    obtain ⟨_, ⟨q, e', _⟩⟩ := idiv_imod_spec a n h; rw [e'] at e; cases e
+  · intro h; rw [hz n h]; exact z.2.2.1
+  · intro e; apply Classical.byContradiction; intro h
+    obtain ⟨q, r, e', _⟩ := idivMod64_spec a w (fun c => h ((hw w).mp c)); rw [e'] at e; cases e
+  · intro h; rw [h]; exact z.2.2.2.2.1
+  · intro e; apply Classical.byContradiction; intro h
+    obtain ⟨q, e', _⟩ := idiv64_spec a w (fun c => h ((hw w).mp c)); rw [e'] at e; cases e
+  · intro h; rw [h]; exact z.2.2.2.1
+  · intro e; apply Classical.byContradiction; intro h
+    obtain ⟨q, e', _⟩ := imod64_spec a w (fun c => h ((hw w).mp c)); rw [e'] at e; cases e
+  · intro h; rw [h]; exact z.2.2.2.2.2
+
+/-- `divMod_spec` and `q*n + r = u` restated about the function the driver runs (`divModC`) -/
+theorem hw_divMod_spec (a n : U128) (h : n.toNat ≠ 0) :
+    ∃ q r, a.divModC n = .ok (q, r) ∧ q.toNat = a.toNat / n.toNat ∧ r.toNat = a.toNat % n.toNat ∧
+      q.toNat * n.toNat + r.toNat = a.toNat := by
+  obtain ⟨q, r, e, hq, hr⟩ := divMod_spec a n h
+  refine ⟨q, r, by rw [U128.divModC_eq, e]; rfl, hq, hr, ?_⟩
+  rw [hq, hr, Nat.mul_comm]; exact Nat.div_add_mod _ _
+
+/-- `idivMod_spec` restated about the function the driver runs (`I128.divModC`) -/
+theorem hw_idivMod_spec (a n : I128) (h : n.toInt ≠ 0) :
+    ∃ q r, a.divModC n = .ok (q, r) ∧ q.toInt = I128.wrap128 (a.toInt.tdiv n.toInt) ∧
+      r.toInt = a.toInt.tmod n.toInt := by
+  obtain ⟨q, r, e, hq, hr⟩ := idivMod_spec a n h
+  exact ⟨q, r, by rw [I128.divModC_eq, e]; rfl, hq, hr⟩
+
+/-- the 128/64 kernel raises the runtime's divide panic exactly when the top digit of the shifted divisor is 0 -/
+theorem hw_kernel_by64_iff (u : U128) (n : W) (s : Nat) :
+    (U128.divmod128by64C u n s = .hwdiv ↔ (n <<< s) >>> 32 = 0#64) ∧
+    ((n <<< s) >>> 32 ≠ 0#64 → U128.divmod128by64C u n s = .ok (U128.divmod128by64 u n s)) := by
+  refine ⟨⟨fun e => ?_, U128.by64C_hw u n s⟩, U128.by64C_ok u n s⟩
+  apply Classical.byContradiction; intro h
+  rw [U128.by64C_ok u n s h] at e; cases e
+
+/-- with the divisor's own leading-zero count (what every caller passes) the kernel performs no division by zero -/
+theorem hw_kernel_normalised (u : U128) (n : W) (hn : n ≠ 0#64) :
+    U128.divmod128by64C u n (U128.clz n) = .ok (U128.divmod128by64 u n (U128.clz n)) :=
+  U128.by64C_ok _ _ _ (U128.vn1_ne n hn)
+
+/-- CONTRAST: the kernel called WITHOUT the normalisation count (`5 / 1`, `nLeading0 = 0`) divides by the zero digit
+    `vn1` — the runtime's panic; it is the callers' leading-zero count that keeps `vn1` non-zero -/
+theorem hw_kernel_unnormalised : U128.divmod128by64C ⟨0#64, 5#64⟩ 1#64 0 = .hwdiv := U128.by64C_unnormalised
+
+/-- `divmod128by128`, called with the counts every entry point passes (64 / `clz n.lo` for a word divisor, `clz n.hi` / 0
+    otherwise) and any non-zero divisor, performs no machine division by zero and is the total kernel -/
+theorem hw_kernel_by128_ok (u n : U128) (h : n.toNat ≠ 0) :
+    U128.divmod128by128C u n (if n.hi = 0#64 then 64 else U128.clz n.hi) (if n.hi = 0#64 then U128.clz n.lo else 0) =
+      .ok (U128.divmod128by128 u n (if n.hi = 0#64 then 64 else U128.clz n.hi)
+        (if n.hi = 0#64 then U128.clz n.lo else 0)) := by
+  apply U128.by128C_ok
+  rintro ⟨h1, h2⟩
+  apply h
+  unfold U128.toNat; rw [h1, h2]; rfl
+/-- CONTRAST: the same kernel with a word divisor below 2^32 and WITHOUT its leading-zero count (`2^64 / 3`,
+    `nLoLeading0 = 0`) divides by the zero digit -/
+theorem hw_kernel_by128_unnormalised :
+    U128.divmod128by128C ⟨1#64, 0#64⟩ ⟨0#64, 3#64⟩ 64 0 = .hwdiv := by decide
+
+/-- CONTRAST: each unsigned entry point WITHOUT its explicit zero test (the `…Rest` part of the transcription) reaches
+    the machine division `u.lo / 0` for every dividend below 2^64: the runtime's panic instead of the library's -/
+theorem hw_without_zero_test (x : W) :
+    U128.divModRest ⟨0#64, x⟩ U128.zero = .hwdiv ∧ U128.divRest ⟨0#64, x⟩ U128.zero = .hwdiv ∧
+    U128.modRest ⟨0#64, x⟩ U128.zero = .hwdiv ∧ U128.divModWRest ⟨0#64, x⟩ 0#64 = .hwdiv ∧
+    U128.divWRest ⟨0#64, x⟩ 0#64 = .hwdiv ∧ U128.modWRest ⟨0#64, x⟩ 0#64 = .hwdiv := by
+  refine ⟨U128.divModRest_zero_small x, ?_, ?_, U128.divModWRest_zero_small x, ?_, ?_⟩
+  · unfold U128.divRest; rw [if_neg (by decide), if_pos ⟨rfl, rfl⟩]; rfl
+  · unfold U128.modRest; rw [if_neg (by decide), if_pos ⟨rfl, rfl⟩]; rfl
+  · unfold U128.divWRest; rw [if_neg (by decide), if_pos rfl]; rfl
+  · unfold U128.modWRest; rw [if_neg (by decide), if_pos rfl]; rfl
+
+example : (U128.mk 0#64 7#64).divModC (U128.mk 0#64 2#64) = .ok (⟨0#64, 3#64⟩, ⟨0#64, 1#64⟩) := by
+  simp [U128.divModC, U128.divModRest, U128.hwDiv, U128.hwMod, U128.Out.bind]
+example : (U128.mk 0#64 7#64).divModC U128.zero = .divzero := by decide
+
+/-! ## constants, limits, reinterpretation, and the reconstruction law on the model's own operations -/
+
+/-- the constants the model copies from the source (`bit32`, `signBit`) and the dispatch threshold are the values read
+    from `/repo` on this run (`Generated/Facts.lean`) -/
+theorem consts_from_source :
+    (U128.bit32.toNat : Int) = Facts.num_bit32 ∧ (U128.signBit.toNat : Int) = Facts.num_signBit ∧
+    (U128.threshold : Int) = Facts.num_divBinaryShiftThreshold := by decide
+
+/-- **quotient·divisor + remainder reproduces the dividend**, stated with the model's own `Mul` and `Add` (so the three
+    operations are related to each other, not only each to ℕ), and the remainder is `LessThan` the divisor -/
+theorem div_mul_add_mod_ops (a n : U128) (h : n.toNat ≠ 0) :
+    ∃ q r, a.divMod n = .ok (q, r) ∧ (q.mul n).add r = a ∧ r.lessThan n = true := by
+  obtain ⟨q, r, e, h1, h2⟩ := div_mul_add_mod a n h
+  refine ⟨q, r, e, U128.toNat_inj ?_, ?_⟩
+  · rw [U128.add_toNat, U128.mul_toNat, Nat.mod_add_mod, h1]; exact Nat.mod_eq_of_lt a.toNat_lt
+  · rw [U128.lessThan_eq]; exact decide_eq_true h2
+
+/-- the same for `Int128`, for every non-zero divisor — also `MinInt128 / -1`, where the quotient wraps -/
+theorem idiv_mul_add_mod_ops (a n : I128) (h : n.toInt ≠ 0) :
+    ∃ q r, a.divMod n = .ok (q, r) ∧ (q.mul n).add r = a := by
+  obtain ⟨q, r, e, h1⟩ := idiv_mul_add_mod a n h
+  refine ⟨q, r, e, I128.toInt_inj ?_⟩
+  rw [I128.add_toInt, I128.mul_toInt, ← h1]
+  unfold I128.wrap128; omega
+
+
+/-- the exported limits `MaxUint128`, `MaxInt128`, `MinInt128` are the ends of the value ranges -/
+theorem limits_spec :
+    U128.maxU128.toNat = 2^128 - 1 ∧ I128.maxI128.toInt = 2^127 - 1 ∧ I128.minI128.toInt = -2^127 ∧
+    (∀ a : U128, a.toNat ≤ U128.maxU128.toNat) ∧
+    (∀ i : I128, I128.minI128.toInt ≤ i.toInt ∧ i.toInt ≤ I128.maxI128.toInt) := by
+  have h1 : U128.maxU128.toNat = 2^128 - 1 := by decide
+  have h2 : I128.maxI128.toInt = 2^127 - 1 := by decide
+  have h3 : I128.minI128.toInt = -2^127 := by decide
+  refine ⟨h1, h2, h3, fun a => ?_, fun i => ?_⟩
+  · have := a.toNat_lt; omega
+  · have := I128.toInt_range i; omega
+
+/-- `Uint128.AsInt128` / `Int128.AsUint128` (the harness moves every second operand and result through them) reinterpret
+    the same 128 bits: value mod 2^128, and they are inverse to each other -/
+theorem reinterpret_spec (u : U128) (i : I128) :
+    (I128.ofU u).toInt = I128.wrap128 u.toNat ∧ (i.toU.toNat : Int) = i.toInt % 2^128 ∧
+    I128.ofU i.toU = i ∧ (I128.ofU u).toU = u := by
+  refine ⟨I128.ofU_toInt u, ?_, rfl, rfl⟩
+  have := i.toU.toNat_lt
+  rw [I128.toInt_eq]; split <;> omega
+
+/-! ## contrast: the code without one of the mechanisms violates the statement (variants in `Lemmas/U128Contrast.lean`) -/
+
+/-- CONTRAST (carry/borrow propagation): without the carry resp. borrow into the high word, and without the cross
+    products, `Add`/`Sub`/`Mul` are not the operation mod 2^128 -/
+theorem contrast_carry :
+    (addNoCarry ⟨0#64, 0xffffffffffffffff#64⟩ ⟨0#64, 1#64⟩).toNat ≠
+      ((U128.mk 0#64 0xffffffffffffffff#64).toNat + (U128.mk 0#64 1#64).toNat) % 2^128 ∧
+    (subNoBorrow ⟨1#64, 0#64⟩ ⟨0#64, 1#64⟩).toNat ≠
+      ((U128.mk 1#64 0#64).toNat + 2^128 - (U128.mk 0#64 1#64).toNat) % 2^128 ∧
+    (mulNoCross ⟨1#64, 0#64⟩ ⟨0#64, 3#64⟩).toNat ≠ ((U128.mk 1#64 0#64).toNat * (U128.mk 0#64 3#64).toNat) % 2^128 := by
+  decide
+
+/-- CONTRAST (the fixed defect): `OnesCount` as it was before the fix violates `onesCount_spec` at 2^64 -/
+theorem contrast_onesCount_before_fix :
+    onesCountOld ⟨1#64, 0#64⟩ ≠ (List.range 128).countP (fun i => (U128.mk 1#64 0#64).toNat.testBit i) := by
+  decide
+
+/-- CONTRAST (correction loops of `divmod128by64`): without `loop1`/`loop2` the kernel's quotient is wrong on an operand
+    pair that needs two corrections of the first digit (path tag `by64lo,l1=2,l2=1`), although the kernel's
+    precondition holds — `divmod128by64_spec` needs the loops -/
+theorem contrast_correction_loops :
+    (by64NoLoops ⟨0x75287bdfeaa23f64#64, 0x1f67dff300000000#64⟩ 0x986f8c9ffffffffe#64 0).1.toNat ≠
+      (U128.mk 0x75287bdfeaa23f64#64 0x1f67dff300000000#64).toNat / (0x986f8c9ffffffffe#64 : W).toNat := by
+  decide
+
+/-- CONTRAST (final correction of `divmod128by128`): without `if r.Cmp(n) >= 0 { q++; r -= n }` the quotient is one
+    short (path tag `by128,corr`) -/
+theorem contrast_final_correction :
+    (by128NoCorr ⟨0xffffffff#64, 0xffffffffffffffff#64⟩ ⟨0xfffff#64, 0xffffffffffffffff#64⟩ 44 0).1.toNat ≠
+      (U128.mk 0xffffffff#64 0xffffffffffffffff#64).toNat / (U128.mk 0xfffff#64 0xffffffffffffffff#64).toNat := by
+  decide
+
+/-- CONTRAST (decrement of the estimate in `divmod128by128`): without `q.lo--` the estimate `q+1` is multiplied back,
+    the remainder wraps and the "correction" makes it `q+2` (path tag `by128,nocorr,dec`) -/
+theorem contrast_estimate_decrement :
+    (by128NoDec ⟨0x7fffffffc0#64, 0x66#64⟩ ⟨0x20#64, 0x1#64⟩ 58 0).1.toNat ≠
+      (U128.mk 0x7fffffffc0#64 0x66#64).toNat / (U128.mk 0x20#64 0x1#64).toNat := by
+  decide
+
+/-- CONTRAST (high/low split of the word-divisor case): the 128/64 kernel called with `u.hi ≥ n` (2^65·… / 3 without
+    first dividing the high word) does not return the quotient — the hypothesis `u.hi < n` of `divmod128by64_spec` is needed -/
+theorem contrast_high_low_split :
+    (by128NoSplit ⟨3#64, 0#64⟩ ⟨0#64, 3#64⟩ 62).1.toNat ≠ (U128.mk 3#64 0#64).toNat / (U128.mk 0#64 3#64).toNat := by
+  decide
+
+/-- CONTRAST (sign-aware comparison): the unsigned order of the bit patterns puts −1 above 0 -/
+theorem contrast_signed :
+    lessThanUnsigned ⟨0xffffffffffffffff#64, 0xffffffffffffffff#64⟩ I128.zero ≠
+      decide ((I128.mk 0xffffffffffffffff#64 0xffffffffffffffff#64).toInt < I128.zero.toInt) := by
+  decide
+/-- CONTRAST (sign extension of the `int64` operand): `Add64(-1)` without the `nhi` word adds 2^64 − 1 -/
+theorem contrast_signed2 :
+    (addWNoExt I128.zero 0xffffffffffffffff#64).toInt ≠
+      I128.wrap128 (I128.zero.toInt + I128.int64Val 0xffffffffffffffff#64) := by
+  decide
+/-- CONTRAST (signed division via magnitudes): the unsigned quotient of the bit patterns of −4 and 2 is 2^127 − 2,
+    not −2 -/
+theorem contrast_signed3 :
+    divUnsigned ⟨0xffffffffffffffff#64, 0xfffffffffffffffc#64⟩ ⟨0#64, 2#64⟩ =
+      .ok ⟨0x7fffffffffffffff#64, 0xfffffffffffffffe#64⟩ := by
+  decide
+
+/-! ## faithfulness of the fuelled loop -/
+
+/-- faithfulness of the model's loops: the `goto` correction loops of `divmod128by64` are unbounded in the source and
+    fuelled (fuel 4) in the model; at both call sites (top digit of the divisor normalised by its own leading-zero count,
+    `rhat` a remainder modulo that digit) every fuel from 2 on gives the same result, so the bound is never what ends
+    the loop -/
+theorem corrLoop_fuel_irrelevant (n : W) (hn : n ≠ 0#64) (x vn0 unx q left right : W) (f : Nat) :
+    U128.corrLoop ((n <<< U128.clz n) >>> 32) vn0 unx (f + 2) q (x % ((n <<< U128.clz n) >>> 32)) left right =
+    U128.corrLoop ((n <<< U128.clz n) >>> 32) vn0 unx 2 q (x % ((n <<< U128.clz n) >>> 32)) left right := by
+  obtain ⟨h1, h2⟩ := U128.vn1_range n hn
+  exact U128.corrLoop_fuel _ _ _ _ _ _ _ h1 h2 (U128.mod_lt32 _ _ (by omega) h2) f
 
 end C01
